@@ -317,7 +317,12 @@ func encoderFallbackBuilder(fallback encoding.ContentTypeIdentifier) rdfiotypes.
 	})
 }
 
-func openDec(reg rdfiotypes.Registry, rr rdfiotypes.Reader, t string, fallback encoding.ContentTypeIdentifier) string {
+func openDec(reg rdfiotypes.Registry, rr rdfiotypes.Reader, t string, fallback encoding.ContentTypeIdentifier) (res string) {
+	defer func() {
+		if p := recover(); p != nil {
+			res = fmt.Sprintf("panic:%v", p)
+		}
+	}()
 	h, err := reg.NewDecoder(rr, rdfiotypes.DecoderOptions{Type: t}, decoderFallbackBuilder(fallback))
 	if err != nil {
 		if err == rdfiotypes.ErrUnknownEncoding {
@@ -345,7 +350,12 @@ func initEncoderSelfNames() {
 	}
 }
 
-func openEnc(reg rdfiotypes.Registry, ww rdfiotypes.Writer, t string, fallback encoding.ContentTypeIdentifier) string {
+func openEnc(reg rdfiotypes.Registry, ww rdfiotypes.Writer, t string, fallback encoding.ContentTypeIdentifier) (res string) {
+	defer func() {
+		if p := recover(); p != nil {
+			res = fmt.Sprintf("panic:%v", p)
+		}
+	}()
 	h, err := reg.NewEncoder(ww, rdfiotypes.EncoderOptions{Type: t}, encoderFallbackBuilder(fallback))
 	if err != nil {
 		if err == rdfiotypes.ErrUnknownEncoding {
